@@ -45,10 +45,16 @@ func fsStartSim(r *simcore.Run) {
 	names := []string{"a.yaml", "b.yaml"}
 	path := func(n string) string { return filepath.Join(dir, n) }
 	version := map[string]int{}
-	write := func(n string, v int) {
+	content := func(n string, v int, valid bool) []byte {
+		if !valid {
+			return []byte("version: \"1alpha4\"\nrules:\n  - id: [unclosed\n    match: {{{\n")
+		}
+		return []byte(provsim.RuleSetYAML(strings.TrimSuffix(n, ".yaml"), v, 1))
+	}
+	write := func(n string, v int, valid bool) {
 		// written next to the directory and moved in: the provider never sees a half-written file
 		tmp := filepath.Join(os.TempDir(), fmt.Sprintf("verif-fsstart-%d-%s", os.Getpid(), n))
-		os.WriteFile(tmp, []byte(provsim.RuleSetYAML(strings.TrimSuffix(n, ".yaml"), v, 1)), 0o600)
+		os.WriteFile(tmp, content(n, v, valid), 0o600)
 		os.Rename(tmp, path(n))
 		version[n] = v
 	}
@@ -59,7 +65,7 @@ func fsStartSim(r *simcore.Run) {
 	// new version directory and renames a new ..data symlink over the old one
 	kubelet := s.Draw(2, "kubelet-volume") == 1 // (with src naming the file a.yaml of the volume, or the volume's directory)
 	if kubelet {
-		write = func(n string, v int) {
+		write = func(n string, v int, valid bool) {
 			vdir := filepath.Join(dir, fmt.Sprintf("..v%d", v))
 			os.Mkdir(vdir, 0o700)
 			// a volume update writes every key into the new version directory
@@ -70,7 +76,7 @@ func fsStartSim(r *simcore.Run) {
 					}
 				}
 			}
-			os.WriteFile(filepath.Join(vdir, n), []byte(provsim.RuleSetYAML(strings.TrimSuffix(n, ".yaml"), v, 1)), 0o600)
+			os.WriteFile(filepath.Join(vdir, n), content(n, v, valid), 0o600)
 			os.Symlink(filepath.Base(vdir), filepath.Join(dir, "..data_tmp"))
 			os.Rename(filepath.Join(dir, "..data_tmp"), filepath.Join(dir, "..data"))
 			if _, err := os.Lstat(path(n)); err != nil {
@@ -83,21 +89,24 @@ func fsStartSim(r *simcore.Run) {
 	if singleFile {
 		names = names[:1]
 		src = path("a.yaml")
-		write("a.yaml", 1)
+		write("a.yaml", 1, true)
 		r.Count("single-file-sources", 1)
 	} else if s.Draw(2, "a-exists-at-start") == 1 {
-		write("a.yaml", 1)
+		write("a.yaml", 1, true)
 	}
 	p := &Provider{src: src, w: w, p: rec, l: zerolog.Nop(), configured: true}
 	defer p.Stop(context.Background())
 
 	type op struct {
 		name string
-		kind int // 0 write next version, 1 remove
+		kind int // 0 write next version, 1 remove, 2 write a version that is not a rule set
 	}
 	var plan []op
-	for i, n := 0, 1+s.Draw(3, "writes"); i < n; i++ {
-		o := op{simcore.Pick(s, names, "file"), []int{0, 0, 0, 1}[s.Draw(4, "op")]}
+	for i, n := 0, 1+s.Draw(4, "writes"); i < n; i++ {
+		o := op{simcore.Pick(s, names, "file"), []int{0, 0, 0, 1, 2}[s.Draw(5, "op")]}
+		if o.name == "a.yaml" && o.kind == 0 && s.Draw(3, "first-file-invalid") == 2 {
+			o.kind = 2 // the file the provider looks at first is the broken one
+		}
 		if singleFile {
 			o.kind = 0 // the configured file is replaced by new versions (atomically, as editors and deployment tools do)
 		}
@@ -111,14 +120,19 @@ func fsStartSim(r *simcore.Run) {
 	var startErr error
 	sch.Go("provider-start", func() { startErr = p.Start(context.Background()) })
 	var opsLog []string
+	wroteInvalid := false
 	sch.Go("writer", func() {
 		v := 1
 		for _, o := range plan {
 			simsync.Yield("before-write")
 			v++
 			if o.kind == 0 {
-				write(o.name, v)
+				write(o.name, v, true)
 				opsLog = append(opsLog, fmt.Sprintf("write %s v%d", o.name, v))
+			} else if o.kind == 2 {
+				write(o.name, v, false)
+				wroteInvalid = true
+				opsLog = append(opsLog, fmt.Sprintf("write %s v%d (not a rule set)", o.name, v))
 			} else {
 				if kubelet {
 					// the key is dropped from the ConfigMap: the new version directory lacks the file, the link is removed
@@ -132,6 +146,11 @@ func fsStartSim(r *simcore.Run) {
 	})
 	sch.Run()
 	if r.Failed() {
+		return
+	}
+	if startErr != nil && wroteInvalid {
+		// the invalid version was there when the provider took its first look: refusing to start is its documented answer
+		r.Count("starts-refused-because-of-an-invalid-file", 1)
 		return
 	}
 	if startErr != nil && kubelet {
@@ -149,13 +168,18 @@ func fsStartSim(r *simcore.Run) {
 		if data, err := os.ReadFile(path(n)); err == nil {
 			if kind, id := provsim.Classify(data); kind == "valid" {
 				want["file_system:"+path(n)] = id
+			} else {
+				// not a rule set: what was loaded from this file before stays (or nothing, if nothing was); the other
+				// files are judged as always
+				want["file_system:"+path(n)] = "*"
+				r.Count("final-directories-with-an-invalid-file", 1)
 			}
 		}
 	}
 	matches := func() (bool, string) {
 		for _, n := range names {
 			src := "file_system:" + path(n)
-			if got := rec.Active(src); got != want[src] {
+			if got := rec.Active(src); got != want[src] && want[src] != "*" {
 				g, wnt := got, want[src]
 				if g == "" {
 					g = "<absent>"
